@@ -674,6 +674,8 @@ def run_graph(case):
                     keep.extend(o.children)
                     if af and o.cart is not None:
                         keep.append(o.cart)
+                    if case.get("expire"):
+                        sess.expire(o, None if case["expire"] == "all" else [case["expire"]])
             for g in case["graphs"]:
                 def build():
                     kids = None
@@ -992,7 +994,11 @@ def gen_graph(rng):
             rng.shuffle(pre)
             g["pre"] = pre
         graphs.append(g)
-    return {"af": af, "dbk": dbk, "dbp": dbp, "dbpk": dbpk, "dbc": dbc, "preload": [p for p in range(npar) if rng.random() < 0.5], "graphs": graphs, "src": "graph"}
+    return {"af": af, "dbk": dbk, "dbp": dbp, "dbpk": dbpk, "dbc": dbc, "preload": [p for p in range(npar) if rng.random() < 0.5], "graphs": graphs, "src": "graph",
+            # the Session's instances are expired (wholly, or one attribute) before the merges, as after
+            # commit() / expire(): nothing is pending yet, so expiry changes no value - merge must still
+            # copy every source attribute (also a None) onto the expired target
+            "expire": rng.choice([None, None, None, "all", "cart", "children", "a"])}
 
 
 def small_scope():
@@ -1038,6 +1044,15 @@ def gen_cases(ctx, deep=False):
     for af, seq in small_scope():
         if thorough or ctx.rng.random() < (0.12 if af == 0 else 0.2):
             yield {"n": 1, "af": af, "ops": seq, "src": "small"}
+    # always-run: the Session's instance is EXPIRED (wholly / only the relationship / only a column)
+    # and the source carries an explicit None / another value for what is expired
+    for af in (0, 1):
+        for exp in ("all", "cart", "children", "a"):
+            for cart in ("null", {"pk": 1, "v": 7, "persistent": True}):
+                for kids in (None, [], [{"pk": 1, "c": 2, "persistent": True}]):
+                    yield {"af": af, "dbk": {0: 5, 1: 6}, "dbp": {0: 3, 1: 4}, "dbpk": {0: 0, 1: 1}, "dbc": {0: (0, 1), 1: (0, 2), 2: (1, 3)},
+                           "preload": [0, 1], "expire": exp, "src": "graph",
+                           "graphs": [{"pk": 0, "a": 9, "persistent": True, "kids": kids, "cart": cart, "load": 1}]}
     for _ in range(4000 if thorough else 600):
         yield gen_graph(ctx.rng)
 
